@@ -5,7 +5,7 @@
 cd /verif
 R=${VERIF_REPO:-/repo}    # the tree the seeds are applied to and the checks run against (a scratch worktree while /repo is busy)
 export VERIF_REPO=$R
-declare -A ALT=( [C03d]="C12" [C03e]="C12" [C11f]="C12" [C07f]="C10" [C02h]="C02" [C07h]="C04" [C01f]="C02" [C08f]="C02" [C03f]="C02" [C03b]="C12" [C07d]="C10" [C01a]="C02" [C02b]="C01" [C02a]="C13" [C07b]="C03" [C12a]="C12" [C10b]="" [C06b]="" [C07j]="C04" )
+declare -A ALT=( [C03d]="C12" [C03e]="C12" [C11f]="C12" [C07f]="C10" [C02h]="C02" [C07h]="C04" [C01f]="C02" [C08f]="C02" [C03f]="C02" [C03b]="C12" [C07d]="C10" [C01a]="C02" [C02b]="C01" [C02a]="C13" [C07b]="C03" [C12a]="C12" [C10b]="" [C06b]="" [C07j]="C04" [C04l]="C07" [C02m]="C07" [C02l]="C01" [C16l]="C01" [C07l]="C04" [C18m]="C17" )
 IDS=${@:-$(ls seeded)}
 for id in $IDS; do
   P=${id:0:3}
